@@ -330,10 +330,37 @@ fn schema_variants(rng: &mut Rng) -> Value {
   }
 }
 
+/// A long string of multi-byte characters behind a short ASCII pad of random length: error
+/// reasons that quote request content and are cut or capped at some byte length must respect
+/// character boundaries wherever the cut falls.
+fn long_weird(rng: &mut Rng) -> String {
+  let mut s = String::new();
+  for _ in 0..rng.below(8) {
+    s.push(*rng.pick(&['a', 'b', 'x', '_'][..]));
+  }
+  let target = *rng.pick(&[90usize, 140, 270, 300, 520, 530, 700, 1030, 1100][..]) + rng.below(24) as usize;
+  let alphabet: &[char] = match rng.below(3) {
+    0 => &['é', 'ü', 'ß', 'ñ'],
+    1 => &['日', '本', '語', '字'],
+    _ => &['é', '日', '😀', 'x', 'ü'],
+  };
+  while s.len() < target {
+    s.push(*rng.pick(alphabet));
+  }
+  s
+}
+
 fn doc_variant(rng: &mut Rng, k: &mut u64) -> Value {
   *k += 1;
   let i = rng.below(6);
-  match rng.below(20) {
+  match rng.below(22) {
+    20 => {
+      // unknown field with a long non-ASCII name (the core's error quotes it)
+      let mut d = json!({"_id": format!("d{i}"), "body": "x"});
+      d[long_weird(rng)] = json!(1);
+      d
+    }
+    21 => json!({"_id": format!("d{i}"), "n": long_weird(rng)}),
     0 => json!({"body": "no id"}),
     1 => json!({"_id": "", "body": "x"}),
     2 => json!({"_id": format!("d{i}"), "n": "x"}),
@@ -405,7 +432,7 @@ fn gen_body(rng: &mut Rng, path: &str, k: &mut u64) -> Vec<u8> {
         json!({"ids": ids}).to_string()
       }
     },
-    "/search" => match rng.below(20) {
+    "/search" => match rng.below(26) {
       0 => json!({"query": "rust", "limit": 0, "return_stored": true}).to_string(),
       1 => json!({"query": "rust", "return_stored": true}).to_string(),
       2 => json!({"query": "rust", "limit": "x", "return_stored": true}).to_string(),
@@ -425,6 +452,9 @@ fn gen_body(rng: &mut Rng, path: &str, k: &mut u64) -> Vec<u8> {
       15 => json!({"query": "rust", "limit": 5, "return_stored": true, "fields": ["nope"]}).to_string(),
       // a repeated term trips a debug assertion of the core in builds with debug assertions: a real core panic
       16 => json!({"query": "common rust common", "limit": 5, "return_stored": true}).to_string(),
+      17 => json!({"query": {"type": long_weird(rng)}, "limit": 5, "return_stored": true}).to_string(),
+      18 => json!({"query": "rust", "limit": 3, "return_stored": true, "sort": [{"field": long_weird(rng)}]}).to_string(),
+      19 => json!({"query": {"type": "term", "field": long_weird(rng), "value": "t"}, "limit": 3, "return_stored": true}).to_string(),
       _ => json!({"query": rng.pick(&["rust", "common", "w3", "zzz"][..]), "limit": 1 + rng.below(5), "return_stored": rng.chance(1, 2)}).to_string(),
     },
     _ => match rng.below(4) {
